@@ -15,6 +15,7 @@ import numpy as np
 
 import aquacrop
 from aquacrop.entities.initParamVariables import InitialCondition
+from aquacrop.entities.clockStruct import ClockStruct
 
 PROCESS_MODULES = {
     "check_groundwater_table": "aquacrop.solution.check_groundwater_table",
@@ -78,6 +79,8 @@ def snap(x):
             if isinstance(v, np.ndarray):
                 setattr(y, k, v.copy())
         return y
+    if isinstance(x, ClockStruct):
+        return copy.copy(x)
     if isinstance(x, (list,)):
         return list(x)
     return x
